@@ -43,6 +43,44 @@ def _elem(ty):
     return re.sub(r"'[a-z_]+,? ?", "", out)
 
 
+def _loop_accumulates_into_sets(body, next_blk):
+    """`for x in <hash iterator> { .. }`: order-insensitive if the loop body has no effect other than handing `&mut` to
+    order-free collections (HashSet/HashMap/BTreeSet/BTreeMap) - inserting the same elements in another order gives the
+    same collection.  Any other `&mut` argument (a Vec, a String, a TokenStream), any write through a projection, or an
+    early exit that depends on the element makes the loop order-sensitive as far as this test can tell."""
+    t = body.term(next_blk)
+    fwd = body.reachable_from([t["target"]]) if t.get("target") is not None else set()
+    preds = body.preds()
+    back = set()
+    work = [next_blk]
+    while work:
+        x = work.pop()
+        for p in preds[x]:
+            if p not in back and not body.is_cleanup(p):
+                back.add(p)
+                work.append(p)
+    region = (fwd & back) | {next_blk}
+    it_local = op_local(t["args"][0]) if t.get("args") else None
+    for blk in region:
+        if body.is_cleanup(blk):
+            continue
+        for st in body.stmts(blk):
+            if st["k"] == "assign" and st["dst"]["p"] and not all(p.startswith("as ") or p.startswith(".Some") or "::" in p for p in st["dst"]["p"]):
+                return False
+        tt = body.term(blk)
+        if tt["k"] == "return":
+            return False
+        if tt["k"] != "call" or blk == next_blk:
+            continue
+        for ty in (tt.get("arg_tys") or []):
+            if ty.startswith("&mut "):
+                inner = ty[5:]
+                if ORDER_FREE_DST.search(inner) or HX.search(inner) or "iter::" in inner:
+                    continue
+                return False
+    return True
+
+
 def hash_iteration_rule(crate, prop, expect_zero=False, rule="C13.R1"):
     r = Result(rule, "every consumption of a hash-ordered iterator (HashMap/HashSet iteration, by static receiver type) is order-insensitive (collect/extend into a set or map, count/any/all/min/max) or is a justified site whose order cannot reach an output")
     just = {(j["crate"], j["function"], j["iterator"]): j for j in _justified()}
@@ -71,6 +109,8 @@ def hash_iteration_rule(crate, prop, expect_zero=False, rule="C13.R1"):
             if consumed is None:
                 continue
             free = bool(ORDER_FREE_DST.search(dty)) or fn_matches(t, *ORDER_FREE_CALLEES)
+            if not free and fn_matches(t, r"Iterator>::next$", r"Iterator::next$") and _loop_accumulates_into_sets(body, b):
+                free = True
             if fn_matches(t, r"extend$") and atys and ORDER_FREE_DST.search(atys[0].replace("&mut ", "").replace("&", "")):
                 free = True
             it = _elem(consumed)
